@@ -136,6 +136,11 @@ fn judge(
 }
 
 /// One `calls` work item: one signature at one site, all calls, registered in one instance.
+thread_local! {
+    /// Set by the family `calls-after-refused-redefinition`.
+    static AFTER_REFUSED_REDEFINITION: std::cell::Cell<bool> = const { std::cell::Cell::new(false) };
+}
+
 fn run_calls_item(cname: &str, sig: &Sig, site: Site, calls: &[Call], autoescape: bool, acc: &mut Acc, sample: bool) {
     let ext = ext_of(autoescape);
     let shared = comp::shared_templates(sig, cname, ext);
@@ -150,6 +155,23 @@ fn run_calls_item(cname: &str, sig: &Sig, site: Site, calls: &[Call], autoescape
     }
     let mut tera = new_tera();
     let batch_ok = engine::add_templates(&mut tera, &tpls).is_ok();
+    if batch_ok && AFTER_REFUSED_REDEFINITION.with(|c| c.get()) {
+        // The defining template is offered again with ANOTHER definition of the component (one
+        // required parameter nobody supplies, another body) together with a template that uses an
+        // unknown filter: the batch is refused at validation time and every call below must still
+        // meet the definition that is registered.
+        let redefinition = vec![
+            (format!("c{ext}"), format!("{{% component {cname}(zzq) %}}REDEFINED{{{{ zzq }}}}{{% endcomponent {cname} %}}")),
+            (format!("zz-bad{ext}"), "{{ 1 | zz_no_such_filter }}".to_string()),
+        ];
+        let r = engine::add_templates(&mut tera, &redefinition);
+        acc.count(if r.is_ok() { "redefinition-batch-not-refused" } else { "redefinition-batch-refused" }, 1);
+        if r.is_ok() {
+            // acceptance is C07's business; without a refusal there is nothing to judge here
+            acc.case(false, "redefinition-batch-not-refused");
+            return;
+        }
+    }
     let mut tally = Tally::default();
     let declared = sig.declared_names().len();
     let mut sampled = false;
@@ -974,6 +996,34 @@ fn main() {
             run_calls_item(COMP, sig, site, &calls, true, acc, true);
         },
     );
+
+    // ---------------------------------------------------------------- calls after a refused redefinition
+    // "exactly its declared parameters": the ones of the definition that is registered. Seeded
+    // change C05-5: a batch refused at validation time left its component table behind.
+    let rd_sigs = comp::signatures_p_only(&Ty::QUICK);
+    let n_rd = rd_sigs.len() as u64;
+    run.family(
+        Family::new(
+            "calls-after-refused-redefinition",
+            n_rd * nsite,
+            &format!(
+                "{n_rd} signatures (quick type alphabet, p only) x {} calls x {nsite} call sites, judged like `calls`, after add_raw_templates([the defining template with another definition of the component, a template using an unknown filter]) was refused on the same instance; + API",
+                calls.len()
+            ),
+        )
+        .describe(|i| json!({"signature": rd_sigs[(i / nsite) as usize].describe(), "site": sites[(i % nsite) as usize].name(), "history": "after a refused redefinition"})),
+        |item, acc: &mut Acc| {
+            let sig = &rd_sigs[(item / nsite) as usize];
+            let site = sites[(item % nsite) as usize];
+            AFTER_REFUSED_REDEFINITION.with(|c| c.set(true));
+            run_calls_item(COMP, sig, site, &calls, true, acc, false);
+            AFTER_REFUSED_REDEFINITION.with(|c| c.set(false));
+        },
+    );
+    if run.is_supervisor() {
+        let (r, n) = (run.counter("redefinition-batch-refused"), run.counter("redefinition-batch-not-refused"));
+        run.guard("redefinition-batches-refused", r > 0 && n == 0, format!("{r} refused, {n} not refused"));
+    }
 
     // ---------------------------------------------------------------- calls-noescape
     // the quick alphabets again, in .txt templates (nothing may be escaped; API autoescape=false)
